@@ -201,7 +201,7 @@ def reject_class_ok(errs):
 
 def build_rlib():
     tdir = os.path.join(cc.TARGET, "witness")
-    p = subprocess.run(["cargo", "build", "--release", "--offline", "--lib", "--target-dir", tdir], cwd="/repo", env=cc.ENV,
+    p = subprocess.run(["cargo", "build", "--release", "--offline", "--lib", "--target-dir", tdir], cwd=cc.REPO, env=cc.ENV,
                        stdout=subprocess.PIPE, stderr=subprocess.STDOUT, text=True)
     if p.returncode != 0:
         cc.log(p.stdout[-2000:])
